@@ -365,6 +365,29 @@ fn run(ctx: &mut Ctx) {
         parts.push(Part::Code { text: "i1".into(), trailing_comment: None });
         judge(ctx, &parts, "i1", "\n", true, "deep-and-wide-metadata");
     }
+    // many comment lines / many metadata items: the name is still the first line, the description every other line in order, every item kept
+    for (k, n) in [100usize, 1_000, 5_000, 20_000].into_iter().enumerate() {
+        if !ctx.mine() {
+            continue;
+        }
+        let mut parts: Vec<Part> = vec![];
+        for i in 0..n {
+            parts.push(Part::Comment { indent: if i % 7 == 0 { "  ".into() } else { String::new() }, body: format!(" line {i} ") });
+            if i % 50 == 3 && k < 3 {
+                parts.push(Part::Meta { key: format!("k{i}"), text: format!("i{i}"), value: Some(Value::Int(i as i128)), trailing_comment: None });
+            }
+        }
+        parts.push(Part::Code { text: "i1".into(), trailing_comment: None });
+        parts.push(Part::Comment { indent: String::new(), body: " the last line".into() });
+        judge(ctx, &parts, "i1", if k % 2 == 0 { "\n" } else { "\r\n" }, k % 2 == 0, "many-comment-lines-and-items");
+        // many items with the same key: the last one wins
+        let mut parts: Vec<Part> = vec![Part::Comment { indent: String::new(), body: " n".into() }];
+        for i in 0..n.min(3_000) {
+            parts.push(Part::Meta { key: format!("k{}", i % 17), text: format!("i{i}"), value: Some(Value::Int(i as i128)), trailing_comment: None });
+        }
+        parts.push(Part::Code { text: "i1".into(), trailing_comment: None });
+        judge(ctx, &parts, "i1", "\n", true, "many-comment-lines-and-items");
+    }
     // characters that look like nothing but are not whitespace (BOM, zero-width space, soft hyphen, word joiner, NUL …) in front of the
     // text, of a comment line, of a metadata item or of the expression: the grammar derives none of them, the text is not a rule
     for (k, ch) in ["\u{feff}", "\u{200b}", "\u{ad}", "\u{2060}", "\u{0}", "\u{180e}", "\u{200e}", "\u{7f}", "\u{1}", "\u{fffe}"].into_iter().enumerate() {
